@@ -210,6 +210,7 @@ func (tr *fnTrans) applyContract(in *ssa.Call, c *Contract, key string, args []T
 			tr.decl(fmt.Sprintf("(declare-const %s %s)", n, heapSortName(tr.maps[m])))
 			tr.heap[m] = n
 			tr.hyp(tr.frameFormula(m, h0, n, allocPre, mods))
+			tr.atStep(m, h0, n, tr.touchedByMods(allocPre, m, mods))
 		}
 	}
 	post := tr.env()
@@ -294,7 +295,7 @@ func (tr *fnTrans) appendOp(in *ssa.Call, s, xs Term) {
 		nl := app("+", ln, intLit(n))
 		tr.hyp(app(">=", newcap, nl))
 		inplace := tr.define(tr.fresh("inplace"), SBool, app("<=", nl, slCap(s.S)))
-		tr.setVal(in, rs, ite(inplace, mkSlice(slArr(s.S), slOff(s.S), nl, slCap(s.S)), mkSlice(id, "0", nl, newcap)))
+		tr.constVal(in, rs, ite(inplace, mkSlice(slArr(s.S), slOff(s.S), nl, slCap(s.S)), mkSlice(id, "0", nl, newcap)))
 		row := sel(A, slArr(s.S))
 		newarr := tr.fresh("newarr")
 		tr.decl(fmt.Sprintf("(declare-const %s (Array Int %s))", newarr, es.Name))
@@ -307,6 +308,17 @@ func (tr *fnTrans) appendOp(in *ssa.Call, s, xs Term) {
 		tr.hyp(implies(in0, fmt.Sprintf("(forall ((k!a Int)) (! (=> (and (<= 0 k!a) (< k!a %s)) (= (select %s k!a) (select (select %s %s) (+ %s k!a)))) :pattern ((select %s k!a))))",
 			ln, newarr, A, slArr(s.S), slOff(s.S), newarr)))
 		tr.setHeap(name, ite(inplace, store(A, slArr(s.S), row), store(A, id, fresh)))
+		// consequences stated over at_<sort> terms (both directions as triggers)
+		at := "at_" + es.Tag()
+		A2 := tr.curHeap(name)
+		tr.atStep(name, A, A2, or(app("=", "(sarr s!s)", id), and(app("=", "(sarr s!s)", slArr(s.S)),
+			app(">=", "(+ (soff s!s) k!s)", app("+", slOff(s.S), ln)), app("<", "(+ (soff s!s) k!s)", app("+", slOff(s.S), nl)))))
+		r := tr.vals[in].S
+		tr.hyp(implies(in0, fmt.Sprintf("(forall ((k!a Int)) (! (=> (and (<= 0 k!a) (< k!a %s)) (= (%s %s %s k!a) (%s %s %s k!a))) :pattern ((%s %s %s k!a)) :pattern ((%s %s %s k!a))))",
+			ln, at, A2, r, at, A, s.S, at, A2, r, at, A, s.S)))
+		for j := int64(0); j < n; j++ {
+			tr.hyp(implies(in0, app("=", app(at, A2, r, app("+", ln, intLit(j))), app(at, A, xs.S, intLit(j)))))
+		}
 		return
 	}
 	// general case
@@ -314,7 +326,7 @@ func (tr *fnTrans) appendOp(in *ssa.Call, s, xs Term) {
 	nl := app("+", ln, nn)
 	tr.hyp(app(">=", newcap, nl))
 	inplace := tr.define(tr.fresh("inplace"), SBool, app("<=", nl, slCap(s.S)))
-	r := tr.setVal(in, rs, ite(inplace, mkSlice(slArr(s.S), slOff(s.S), nl, slCap(s.S)), mkSlice(id, "0", nl, newcap)))
+	r := tr.constVal(in, rs, ite(inplace, mkSlice(slArr(s.S), slOff(s.S), nl, slCap(s.S)), mkSlice(id, "0", nl, newcap)))
 	A1 := tr.fresh(name)
 	tr.decl(fmt.Sprintf("(declare-const %s %s)", A1, heapSortName(tr.maps[name])))
 	tr.heap[name] = A1
@@ -325,6 +337,15 @@ func (tr *fnTrans) appendOp(in *ssa.Call, s, xs Term) {
 		ln, A1, ra, ro, A, slArr(s.S), slOff(s.S), A1, ra, ro)))
 	tr.hyp(implies(in0, fmt.Sprintf("(forall ((j!a Int)) (! (=> (and (<= 0 j!a) (< j!a %s)) (= (select (select %s %s) (+ %s %s j!a)) (select (select %s %s) (+ %s j!a)))) :pattern ((select (select %s %s) (+ %s j!a)))))",
 		nn, A1, ra, ro, ln, A, slArr(xs.S), slOff(xs.S), A, slArr(xs.S), slOff(xs.S))))
+	tr.atStep(name, A, A1, or(app("=", "(sarr s!s)", id), and(app("=", "(sarr s!s)", slArr(s.S)),
+		app(">=", "(+ (soff s!s) k!s)", app("+", slOff(s.S), ln)), app("<", "(+ (soff s!s) k!s)", app("+", slOff(s.S), nl)))))
+	{
+		at := "at_" + es.Tag()
+		tr.hyp(implies(in0, fmt.Sprintf("(forall ((k!a Int)) (! (=> (and (<= 0 k!a) (< k!a %s)) (= (%s %s %s k!a) (%s %s %s k!a))) :pattern ((%s %s %s k!a)) :pattern ((%s %s %s k!a))))",
+			ln, at, A1, r.S, at, A, s.S, at, A1, r.S, at, A, s.S)))
+		tr.hyp(implies(in0, fmt.Sprintf("(forall ((j!a Int)) (! (=> (and (<= 0 j!a) (< j!a %s)) (= (%s %s %s (+ %s j!a)) (%s %s %s j!a))) :pattern ((%s %s %s j!a))))",
+			nn, at, A1, r.S, ln, at, A, xs.S, at, A, xs.S)))
+	}
 	tr.hyp(implies(and(in0, inplace), fmt.Sprintf("(forall ((k!a Int)) (! (=> (or (< k!a (+ %s %s)) (>= k!a (+ %s %s))) (= (select (select %s %s) k!a) (select (select %s %s) k!a))) :pattern ((select (select %s %s) k!a))))",
 		slOff(s.S), ln, slOff(s.S), nl, A1, slArr(s.S), A, slArr(s.S), A1, slArr(s.S))))
 }
@@ -351,6 +372,10 @@ func (tr *fnTrans) copyOp(in *ssa.Call, dst, src Term) {
 		n, A1, da, do, A, slArr(src.S), slOff(src.S), A1, da, do)))
 	tr.hyp(implies(in0, fmt.Sprintf("(forall ((k!a Int)) (! (=> (or (< k!a %s) (>= k!a (+ %s %s))) (= (select (select %s %s) k!a) (select (select %s %s) k!a))) :pattern ((select (select %s %s) k!a))))",
 		do, do, n, A1, da, A, da, A1, da)))
+	tr.atStep(name, A, A1, and(app("=", "(sarr s!s)", da), app(">=", "(+ (soff s!s) k!s)", do), app("<", "(+ (soff s!s) k!s)", app("+", do, n))))
+	at := "at_" + es.Tag()
+	tr.hyp(implies(in0, fmt.Sprintf("(forall ((k!a Int)) (! (=> (and (<= 0 k!a) (< k!a %s)) (= (%s %s %s k!a) (%s %s %s k!a))) :pattern ((%s %s %s k!a)) :pattern ((%s %s %s k!a))))",
+		n, at, A1, dst.S, at, A, src.S, at, A1, dst.S, at, A, src.S)))
 }
 
 var _ = token.NoPos
